@@ -147,10 +147,6 @@ def execute(sc, ctx):
         return
     pats = hv.latest_patterns() or observe.default_patterns()
     ig = observe.make_ignore(pats, w.root)
-    import pathspec
-    if pathspec.PathSpec.from_lines("gitwildmatch", pats).match_file(w.root + "/x"):
-        ctx.probe("root_matches_pattern_na")
-        return
     sealed_files, sealed_dirs = observe.walk_nonignored(w.root, ig)
     sealed_bytes = {f: observe.read_bytes(f) for f in sealed_files}
     n_gens = len(hv.generations)
